@@ -188,13 +188,26 @@ int nev_execute(program * prog, vm * machine, object * result)
     {
         machine->ip = 0;
         machine->initialized = 1;
+
+        return vm_execute(machine, prog, result);
     }
     else
     {
-        machine->ip = prog->module_value->code_entry;
-    }
+        /* a call that ends in an unhandled exception must not leave
+         * anything of its own on the stack of a machine that is used again */
+        int sp = machine->sp;
+        int ret = 0;
 
-    return vm_execute(machine, prog, result);
+        machine->ip = prog->module_value->code_entry;
+
+        ret = vm_execute(machine, prog, result);
+        if (ret != 0)
+        {
+            machine->sp = sp;
+        }
+
+        return ret;
+    }
 }
 
 int nev_prepare(program * prog, const char * entry_name)
